@@ -313,7 +313,10 @@ func generate(cfg *config, prop string) (*genOutput, error) {
 
 func solveAll(g *genOutput, obls []*vc.Obligation, timeout time.Duration) []oblResult {
 	res := make([]oblResult, len(obls))
-	workers := runtime.NumCPU() - 2
+	// every worker races two to four solver processes: half the cores keeps
+	// each solver at full speed, so that the measured times (admission limit
+	// of the baseline) are those of the solver, not of the scheduler
+	workers := runtime.NumCPU() / 2
 	if workers < 2 {
 		workers = 2
 	}
